@@ -676,6 +676,8 @@ class Interp:
             raise Refuse(f"method {name} on {type(base).__name__} at line {line}")
         if kind == 'module':
             name = f.name
+            if name.startswith("str:") and name.endswith(".join") and len(args) == 1 and isinstance(args[0], VWord):
+                return [('val', st, args[0])]      # separator characters are part of the dropped character structure
             cc = self.c.callees.get(name)
             if cc is None:
                 raise Refuse(f"call of uncontracted function {name} at line {line}")
